@@ -75,7 +75,7 @@ def run_p(seed, tier, replay=None):
 
 def run(seed, tier, replay=None):
     from props import mix, tim
-    r = mix.merge(run_p(seed, tier, replay), tim.run_family("cancel", seed, tier, 7, 35))
+    r = mix.merge(run_p(seed, tier, replay), tim.run_family("cancel", seed, tier, 8, 35))
     # cancellation by a shutdown signal: nothing starts afterwards, no retry delay is sat out (the signal-specific clauses are C11's)
     return mix.merge(r, tim.run_family("sig", seed, tier, 8, 40, kinds=("retry-after-signal", "exit-late", "start-after-signal", "hang", "system")))
 
